@@ -288,6 +288,8 @@ let run_g args =
          (b (geq t1 t1f)) (b (geq t1 t1f)) (String.concat " " outs))
 
 let run_y args =
+  (* an optional first argument m<hex> masks the child hashes of the implementation; no model output depends on the hash *)
+  let args = match args with m :: r when String.length m > 0 && m.[0] = 'm' -> r | _ -> args in
   match split_list "|" args with
   | [ev; path; rev] ->
     (match build_in empty_cache ev with
@@ -342,7 +344,16 @@ let run_q args =
             (match static_text k with Some x -> show_text x | None -> "-")
         | _ -> "?") toks in
     let rows = List.map (fun a -> String.concat "" (List.map (fun b -> if text_eq static_text a b then "1" else "0") toks)) toks in
-    String.concat " " descr ^ " | " ^ String.concat "," rows
+    let dumps = List.map (fun g -> let b = Buffer.create 64 in dump_green strs b g; Buffer.contents b) (List.rev !greens) in
+    let seen = ref [] in
+    let ids = List.map (fun t -> match t with
+        | GTok (id, _, _, _) ->
+          (match List.assoc_opt id !seen with
+           | Some j -> j
+           | None -> let j = List.length !seen in seen := (id, j) :: !seen; j)
+        | _ -> -1) toks in
+    String.concat " " descr ^ " | " ^ String.concat "," rows ^ " | " ^ String.concat " / " dumps ^ " | same " ^
+    String.concat "," (List.map string_of_int ids)
   end
 
 (* ------------------------------------------------------------------------------------------ *)
